@@ -23,6 +23,12 @@ LEVEL = {
             "invalid mixes / foreign namespaces / unknown resources are errors, one hook request per (UID, generation) while cached; every real sync with a customize hook is "
             "replayed against the model and its related map compared with a selection computed from the statement; related-object events are delivered to the real handlers "
             "and every selected object must wake its parent", NOTE_SYNC, "Lean 4 proof over a hand-written model + trace-replay and event correspondence checks"),
+    "C20": ("Lean theorems about the reconcile state machine for every event history: the running set follows the last spec (constructible -> that spec, otherwise nothing, never the "
+            "previous one), one instance per name, an update that leaves the spec alone does nothing, delete stops, other controllers untouched, and the factory's subscription counts "
+            "always equal those of the running instances - including constructors that fail after opening informers (no leak); the real Reconcile of both meta-controllers is driven "
+            "through generated histories with real hosted controllers and compared with the model event by event; goroutine shutdown inside Stop() is observed, not modelled",
+            "trusted: Lean kernel (+propext, Quot.sound, Classical.choice), Go harness (fake client, LIST/WATCH simulator, webhook server), driver JSON reader; modelled not verified: "
+            "controller-runtime, client-go informers/work queues, goroutine scheduling", "Lean 4 proof over a hand-written state machine + event-history correspondence check"),
     "C18": ("Lean theorems about the factory/handler state machine for every operation sequence: an inductive invariant (an informer runs exactly while a subscription to it is open, "
             "one running informer per resource), reference count = open subscriptions, fresh informer after the last close, replay on add, delivery to exactly the registered handlers, "
             "silence after removal, isolation between subscriptions; the real factory is driven through generated operation sequences against a LIST/WATCH simulator and compared with "
